@@ -46,6 +46,7 @@ def run(ctx):
     c01.r11(ctx)
     c01.r12_units(ctx, 'R2.8')
     r29(ctx)
+    r211(ctx)
     from . import c07 as _c07
     _c07.r712(ctx, 'R2.10')
     r27(ctx)
@@ -645,3 +646,15 @@ def r29(ctx, rule='R2.9'):
     ctx.ob(rule, 'writer.write_column:dictionary-and-data-pages-compressed-under-the-same-condition',
            len(set(g for g in guards if g not in ('is_compressed',))) == 1,
            'guards of the compress_data calls: %s' % guards, wr.loc(f))
+
+
+def r211(ctx, rule='R2.11'):
+    """writer.encode_dict: the bit-packed run header announces ceil(n/8) groups of 8 indices; the payload that follows
+    must hold that many (the last group padded), or the run declares bytes that are not there (known finding K02a)"""
+    wr = ctx.repo['writer']
+    f = wr.func('encode_dict')
+    ret = [r for r in walk_no_nested(f) if isinstance(r, ast.Return)]
+    padded = any('pad' in norm(r.value) or 'ljust' in norm(r.value) or 'np.pad' in norm(r.value) for r in ret) or \
+        any(isinstance(c, ast.Call) and callee(c) in ('np.pad',) for c in walk_no_nested(f))
+    ctx.ob(rule, 'writer.encode_dict:bit-packed-run-payload-covers-the-groups-it-announces', padded,
+           'header: (len(data) + 7) // 8 groups; payload: data.values.tobytes() - %s' % ([norm(r)[:80] for r in ret]), wr.loc(f))
